@@ -28,7 +28,9 @@ MD_EDGES = [
     "float('inf')", "-0.0", "1e400", "complex('nan')", "object()", "np.float16(3.5)", "tuple([1] * 12)", "[np.zeros(1)] * 12",
 ]
 NAME_EDGES = ["a/b", "/abs", "a//b", ".", "..", "", " ", "metadatabundle", "data", "dim0", "_tmp_x", "x" * 300, "x" * 70000,
-              "a\x00b", "tab\there", "new\nline", "ünï/cöde", "a.b", "-", "0"]
+              "a\x00b", "tab\there", "new\nline", "ünï/cöde", "a.b", "-", "0",
+              # names that only LOOK like the datasets a class keeps in its own group (prefixes / extensions of them)
+              "dimensions", "dim_notes", "dim", "dim10", "datafile", "data_2", "metadata", "metadatabundle2", "_labels_"]
 
 
 def cases(tier, seed):
